@@ -1,3 +1,4 @@
+import Swat4.Lemmas.FactsExtra16
 import Swat4.Model.USys
 import Swat4.Lemmas.Prog
 import Swat4.Lemmas.Backed
